@@ -22,6 +22,7 @@ Record host_obs := {
 }.
 Record step_obs := {
   t_valid : bool;      (* the real admission plugin accepted the object *)
+  t_fvalid : bool;     (* it would accept the object if no other object were stored (field validation) *)
   t_delivered : bool;  (* the object was stored / removed and an event reached the controller *)
   t_res : Z;           (* 0 none, 1 ok, 2 requeue, 3 error *)
   t_hosts : list host_obs;
@@ -103,18 +104,19 @@ Definition request_ok (api : list obj) (hs : string * string) (x : string * Z) :
 Record ev := { ev_name : string; ev_res : Z; ev_src : nat }.
 
 Record sstate := {
-  sp_api : list obj;               (* objects currently stored *)
-  sp_clean : bool;                 (* so far: every stored object was admitted, every delivery returned ok,
-                                      every re-delivery was a legal one *)
+  sp_api : list obj;               (* objects currently stored: the LATEST version of every cluster *)
+  sp_fclean : bool;                (* so far: every stored object passed field validation, no delivery ended in an
+                                      error, every re-delivery was a legal one *)
   sp_prev : list host_obs;         (* observations after the previous op *)
   sp_log : list (option ev);       (* the event of each op, None if the op delivered nothing *)
-  sp_latest : list (string * nat)  (* stored name -> op that stored its current version *)
+  sp_latest : list (string * nat); (* stored name -> op that stored its current version *)
+  sp_lastev : list (string * (nat * Z))  (* name -> (op, result) of the last event delivered about it *)
 }.
 Definition sinit (n : nat) : sstate :=
-  {| sp_api := []; sp_clean := true;
+  {| sp_api := []; sp_fclean := true;
      sp_prev := repeat {| h_c := ""; h_stopped := false; h_code := 503; h_tc := ""; h_cert := 0; h_ca := 0;
                           h_reqcert := false; h_vok := false; h_vca := 0 |} n;
-     sp_log := []; sp_latest := [] |}.
+     sp_log := []; sp_latest := []; sp_lastev := [] |}.
 
 Fixpoint latest_get (n : string) (l : list (string * nat)) : option nat :=
   match l with
@@ -122,6 +124,28 @@ Fixpoint latest_get (n : string) (l : list (string * nat)) : option nat :=
   | (k, v) :: r => if String.eqb n k then Some v else latest_get n r
   end.
 Definition latest_del (n : string) (l : list (string * nat)) := filter (fun p => negb (String.eqb n (fst p))) l.
+Fixpoint lastev_get (n : string) (l : list (string * (nat * Z))) : option (nat * Z) :=
+  match l with
+  | [] => None
+  | (k, v) :: r => if String.eqb n k then Some v else lastev_get n r
+  end.
+
+(* the stored objects are pairwise name-disjoint: every name of every object has exactly one owner *)
+Definition api_disjoint (api : list obj) : bool :=
+  forallb (fun o => forallb (fun k => Nat.eqb (List.length (filter (fun o' => smem k (allnames o')) api)) 1)
+                            (allnames o)) api.
+
+(* the gateway has had the chance to reach the state the property describes: the stored objects do not
+   contradict each other, and for every stored cluster the controller has processed, successfully, an event
+   about it after its current version was stored (a rejected version waits for its requeue; until then the
+   property cannot be judged) *)
+Definition settled (s : sstate) : bool :=
+  (api_disjoint (sp_api s)
+   && forallb (fun p => match lastev_get (fst p) (sp_lastev s) with
+                        | Some (idx, r) => ((r =? 1) && Nat.leb (snd p) idx)%bool
+                        | None => false
+                        end) (sp_latest s))%bool.
+Definition judged (s : sstate) : bool := (sp_fclean s && settled s)%bool.
 
 (* the event delivered by op k may legally be delivered again iff the controller asked for a requeue
    (syncqueue re-adds the same object), or it still is the current version of its object (informer resync) *)
@@ -152,9 +176,9 @@ Definition snext (s : sstate) (p : op) (b : step_obs) : sstate :=
                end
              else sp_api s in
   let ok := match p with
-            | OApply _ _ => if t_delivered b then (t_valid b && (t_res b =? 1))%bool else true
-            | ODelete _ => if t_delivered b then t_res b =? 1 else true
-            | ORetry k => (legal_retry s k && (if t_delivered b then t_res b =? 1 else true))%bool
+            | OApply _ _ => if t_delivered b then (t_fvalid b && negb (t_res b =? 3))%bool else true
+            | ODelete _ => if t_delivered b then negb (t_res b =? 3) else true
+            | ORetry k => (legal_retry s k && (if t_delivered b then negb (t_res b =? 3) else true))%bool
             end in
   let e := if t_delivered b then
              match p with
@@ -173,23 +197,36 @@ Definition snext (s : sstate) (p : op) (b : step_obs) : sstate :=
                   | ORetry _ => sp_latest s
                   end
                 else sp_latest s in
-  {| sp_api := api; sp_clean := (sp_clean s && ok)%bool; sp_prev := t_hosts b;
-     sp_log := (sp_log s ++ [e])%list; sp_latest := latest |}.
+  let lastev := match e with
+                | Some e1 => (ev_name e1, (here, ev_res e1))
+                             :: filter (fun p => negb (String.eqb (ev_name e1) (fst p))) (sp_lastev s)
+                | None => sp_lastev s
+                end in
+  {| sp_api := api; sp_fclean := (sp_fclean s && ok)%bool; sp_prev := t_hosts b;
+     sp_log := (sp_log s ++ [e])%list; sp_latest := latest; sp_lastev := lastev |}.
+
+(* is the property judged on the state after the whole history? (used by C11) *)
+Fixpoint judged_after (s : sstate) (l : list (op * step_obs)) : bool :=
+  match l with
+  | [] => judged s
+  | (p, b) :: r => judged_after (snext s p b) r
+  end.
 
 (* the eight clauses for one step *)
 Definition step_ok (hosts xps : list (string * string)) (s : sstate) (p : op) (b : step_obs) : list bool :=
   let s' := snext s p b in
-  let clean := sp_clean s' in
+  let clean := judged s' in            (* "current" = the latest stored version of every cluster *)
+  let fclean := sp_fclean s' in
   let a := event_cluster s p b in
   let hb := combine hosts (t_hosts b) in
   [ if clean then forallb (fun x => resolves_ok (sp_api s') (fst x) (snd x)) hb else true;
     forallb (fun x => same_tenant_ok (fst x) (snd x)) hb;
     forall2b (no_capture_ok a) (sp_prev s) (t_hosts b);
-    if (clean && match p with ODelete _ => t_delivered b | _ => false end)%bool
+    if (fclean && match p with ODelete _ => t_delivered b | _ => false end)%bool
     then forallb (deleted_ok a) (t_hosts b) else true;
     if clean then forallb (fun x => tls_ok (sp_api s') (fst x) (snd x)) hb else true;
     norm_ok hosts (t_hosts b);
-    if clean then forallb alive_ok (t_hosts b) else true;
+    if fclean then forallb alive_ok (t_hosts b) else true;
     if clean then forall2b (request_ok (sp_api s')) xps (t_x b) else true ].
 
 Definition and_lists (a b : list bool) : list bool := map (fun p => (fst p && snd p)%bool) (combine a b).
